@@ -1041,6 +1041,34 @@ def meta_cases(R, exact_grids):
                 if not gc.can_scale(*bb):
                     continue
                 check_meta_affected(R, gc, mg, ms, bb, l, kind)
+    # levels whose grid is smaller than the configured meta size (the effective meta size is the clipped one, for the
+    # alignment of the first / last tile as well as for the step between meta tiles) with rectangles that overhang the
+    # grid on each of the four sides; fixed choice, independent of the seed
+    done = 0
+    for gc in exact_grids:
+        if done >= ctx.n(80, 240):
+            break
+        g = gc.grid
+        small = [l for l in range(len(gc.res)) if min(gc.grid_size(l)) < 8]
+        for l in sorted(set(small[:1] + small[-1:])):
+            nx, ny = gc.grid_size(l)
+            ms = (4, 4) if (nx < 4 or ny < 4) else (8, 8)
+            mg = MetaGrid(g, meta_size=ms, meta_buffer=0)
+            r = float(gc.res[l])
+            sx, sy = r * gc.tw, r * gc.th
+            x0, y0, x1, y1 = [float(v) for v in gc.bbox]
+            xm, ym = x0 + min(sx, x1 - x0) / 2.0, y0 + min(sy, y1 - y0) / 2.0
+            xn, yn = x1 - min(sx, x1 - x0) / 2.0, y1 - min(sy, y1 - y0) / 2.0
+            for kind, bb in (('overhang_w', (x0 - sx * ms[0] / 2.0, ym, xm, yn)),
+                             ('overhang_n', (xm, ym, xn, y1 + sy * ms[1] / 2.0)),
+                             ('overhang_e', (xm, ym, x1 + sx * ms[0] / 2.0, yn)),
+                             ('overhang_s', (xm, y0 - sy * ms[1] / 2.0, xn, yn)),
+                             ('overhang_all', (x0 - sx, y0 - sy, x1 + sx, y1 + sy))):
+                bb = tuple(math.floor(v * 8) / 8.0 for v in bb)
+                if not (bb[0] <= bb[2] and bb[1] <= bb[3]) or not gc.can_scale(*bb):
+                    continue
+                check_meta_affected(R, gc, mg, ms, bb, l, kind)
+                done += 1
 
 
 def check_meta_affected(R, gc, mg, ms, bb, l, kind):
@@ -1106,6 +1134,14 @@ def foreign_cases(R):
                             res=[1000, 500, 250, 100, 50, 25, 10, 5]), 'EPSG:4326', (6.0, 41.0, 12.0, 59.0)),
         ('EPSG:3857', dict(), 'EPSG:4326', (-170.0, -80.0, 170.0, 80.0)),
         ('EPSG:4326', dict(bbox=(0.0, 40.0, 20.0, 60.0)), 'EPSG:25832', (300000.0, 5000000.0, 800000.0, 6200000.0)),
+        # two grids whose SRS have no EPSG number, asked one after the other from the same request SRS (the transformer an
+        # SRS object keeps per target SRS must be the one of that target): fixed rectangles, independent of the seed
+        ('ESRI:54009', dict(bbox=(-18040096.0, -9020048.0, 18040096.0, 9020048.0), origin='nw'), 'EPSG:4326',
+         [(5.0, 45.0, 7.0, 47.0), (-120.0, -40.0, -60.0, 10.0), (100.0, -10.0, 140.0, 30.0), (-10.0, 50.0, 30.0, 70.0),
+          (20.5, -33.25, 28.75, -22.5), (-179.0, 60.0, -150.0, 72.0)]),
+        ('ESRI:102014', dict(bbox=(-4000000.0, 0.0, 4000000.0, 8000000.0), origin='ll'), 'EPSG:4326',
+         [(5.0, 45.0, 7.0, 47.0), (-5.0, 40.0, 10.0, 50.0), (10.0, 55.0, 30.0, 65.0), (20.0, 36.0, 28.0, 42.0),
+          (0.0, 48.0, 2.0, 49.5), (-9.0, 37.0, -6.0, 42.0)]),
     ]
     out = []
     for ci, (gsrs, kw, rsrs, region) in enumerate(configs):
@@ -1115,6 +1151,18 @@ def foreign_cases(R):
         gc.kind = 'real'
         gc.obs_sizes = [tuple(g.grid_sizes[l]) for l in range(len(gc.res))]
         out.append(gc)
+        # reference transformation built here from the two CRS definitions (not through the transformer cache of mapproxy.srs)
+        try:
+            from pyproj import Transformer
+            ref = Transformer.from_crs(req.proj, g.srs.proj, always_xy=True)
+        except Exception as e:  # noqa
+            ctx.problem('harness', 'reference transformer %s -> %s cannot be built: %r' % (rsrs, gsrs, e))
+            ref = None
+        if isinstance(region, list):
+            sizes = [(512, 512), (1000, 800), (256, 256), (2000, 1000), (100, 100), (512, 300)]
+            for k, bb in enumerate(region):
+                check_foreign(R, gc, req, bb, sizes[k % len(sizes)], generate_envelope_points, ref)
+            continue
         for k in range(ctx.n(10, 40)):
             rw, rh = region[2] - region[0], region[3] - region[1]
             w = rw * rng.choice([0.05, 0.2, 0.5, 0.6, 0.9])
@@ -1125,7 +1173,7 @@ def foreign_cases(R):
             size = rng.choice([(1000, 800), (256, 256), (512, 300), (2000, 1000), (100, 100)])
             if k % 2 == 0:
                 bb = hunt_border(g, req, bb, size, rng)
-            check_foreign(R, gc, req, tuple(bb), size, generate_envelope_points)
+            check_foreign(R, gc, req, tuple(bb), size, generate_envelope_points, ref)
     return out
 
 
@@ -1157,7 +1205,7 @@ def hunt_border(g, req, bb, size, rng):
     return bb
 
 
-def check_foreign(R, gc, req, bb, size, generate_envelope_points):
+def check_foreign(R, gc, req, bb, size, generate_envelope_points, ref=None):
     ctx, g = R.ctx, gc.grid
     sx, sy = size
     rep = {'grid': dict(gparams(g), srs=g.srs.srs_code), 'query': {'fn': 'affected_foreign', 'bbox': list(bb), 'size': [sx, sy],
@@ -1175,6 +1223,24 @@ def check_foreign(R, gc, req, bb, size, generate_envelope_points):
     except Exception as e:  # noqa
         ctx.problem('harness', 'outline points cannot be transformed: %r' % (e,))
         return
+    if ref is not None:
+        # the points SRS.transform_to hands to the grid are those of the transformation request SRS -> grid SRS
+        try:
+            env = generate_envelope_points(bb, 16)
+            rx, ry = ref.transform([p[0] for p in env], [p[1] for p in env])
+            rpts = [(float(a), float(b)) for a, b in zip(rx, ry)]
+        except Exception as e:  # noqa
+            ctx.problem('harness', 'reference transformation failed: %r' % (e,))
+            return
+        same = lambda a, b: (a == b) or (math.isfinite(a) and math.isfinite(b) and abs(a - b) <= 1e-9 * max(1.0, abs(a), abs(b))) \
+            or (not math.isfinite(a) and not math.isfinite(b))
+        for q, rq, p in zip(tpts, rpts, env):
+            if not (same(q[0], rq[0]) and same(q[1], rq[1])):
+                ctx.fail('foreign-transform', 'SRS(%s).transform_to(SRS(%s)) maps the outline point %r of the request to %r; the '
+                         'transformation between the two CRS maps it to %r' % (req.srs_code, g.srs.srs_code, tuple(p), q, rq),
+                         dict(rep, point=list(p), transformed=list(q), reference=list(rq)))
+                break
+        tpts = rpts
     if not all(math.isfinite(v) for q in tpts for v in q):
         return
     ex = (min(frac(q[0]) for q in tpts), min(frac(q[1]) for q in tpts), max(frac(q[0]) for q in tpts), max(frac(q[1]) for q in tpts))
